@@ -118,8 +118,8 @@ pub unsafe fn run(bytes: &[u8], st: &St) -> Result<Final, String> {
     for i in 0..16 {
         *ctx.add(i) = st.gpr[i];
     }
-    // RFLAGS: reserved bit 1, IF, and CF(0) ZF(6) SF(7) DF(10) OF(11)
-    let fl = 0x202u64 | (st.fl[0] as u64) | ((st.fl[1] as u64) << 6) | ((st.fl[2] as u64) << 7) | ((st.fl[3] as u64) << 11) | ((st.fl[4] as u64) << 10);
+    // RFLAGS: reserved bit 1, IF, and CF(0) PF(2) ZF(6) SF(7) DF(10) OF(11)
+    let fl = 0x202u64 | ((st.pf as u64) << 2) | (st.fl[0] as u64) | ((st.fl[1] as u64) << 6) | ((st.fl[2] as u64) << 7) | ((st.fl[3] as u64) << 11) | ((st.fl[4] as u64) << 10);
     *ctx.add(0x80 / 8) = fl;
     *ctx.add(0x88 / 8) = 0xffff;
     for i in 0..16 {
